@@ -123,7 +123,32 @@ class Exprs:
         return Func(self.ctx.stack[-1][0] if self.ctx.stack else '?', '<lambda>', node, closure=dict(env.vars))
 
     def ev_JoinedStr(self, node, env):
-        return self.ctx.S.any_str(env)
+        """f'{a}-{b:02d}': each field is the %-directive of the same shape (%s for a bare field)."""
+        S = self.ctx.S
+        out = S.const('')
+        for v in node.values:
+            if isinstance(v, ast.Constant):
+                out = S.concat(env, out, S.const(str(v.value)))
+                continue
+            if not isinstance(v, ast.FormattedValue):
+                return S.any_str(env)
+            val = self.eval(v.value, env)
+            spec = ''
+            if v.format_spec is not None:
+                fs = v.format_spec
+                if isinstance(fs, ast.JoinedStr) and all(isinstance(x, ast.Constant) for x in fs.values):
+                    spec = ''.join(str(x.value) for x in fs.values)
+                else:
+                    self.eval(fs, env)
+                    return S.any_str(env)
+            import re as _re
+            if v.conversion not in (-1, 115) or not _re.match(r'^(0?[0-9]*)([dsxX]?)$', spec):
+                return S.any_str(env)
+            m_ = _re.match(r'^(0?[0-9]*)([dsxX]?)$', spec)
+            conv = m_.group(2) or ('d' if (m_.group(1) and isinstance(val, Int)) else 's')
+            piece = self.str_format(S.const('%' + m_.group(1) + conv), Tup([val]), env, node)
+            out = S.concat(env, out, piece)
+        return out
 
     # ---------------------------------------------------------- operators
     def ev_BoolOp(self, node, env):
